@@ -51,6 +51,10 @@ def snap_compare_lines(script, impl_lines, model_lines, reply_opts=None, digest_
         b = model_lines[i] if i < len(model_lines) else "<missing>"
         if a == b or norm_line(a) == norm_line(b):
             continue
+        if a.startswith("R ") and b.startswith("R "):
+            x, y = common.norm_tree(common.parse_reply(a[2:]), common.parse_reply(b[2:]), unordered=True)
+            if x == y:
+                continue
         return (i, a, b)
     return None
 
@@ -127,7 +131,7 @@ def oracle(script, impl, check_c10=True, check_c03=True, thr=None):
         raw = ev[1] if kind == "raw" else ""
         f = raw.split()
         if not f: continue
-        if f[0] in ("V", "K", "F"):
+        if f[0] in ("V", "K", "F", "KW"):
             if f[0] == "V":
                 if i >= len(impl): return bad("trace ends early", i)
                 if impl[i] in ("HUNG", "DIED"): return bad("SAVE never finished", i)
@@ -163,6 +167,12 @@ def oracle(script, impl, check_c10=True, check_c03=True, thr=None):
                         return bad("after a completed attempt the directory must restore the new snapshot", idx)
             if res == "ok":
                 last_ok = (cur, now); changes = 0
+            if f[0] == "KW":
+                # the reply of the command served during the snapshot (its effect is not in the snapshot: `cur` is the
+                # digest taken before)
+                if i >= len(impl) or not impl[i].startswith("R "): return bad("reply of the command served during the snapshot expected", i)
+                if impl[i] == "R !": return bad("the server panicked", i)
+                i += 1; countable = False
             continue
         if f[0] == "T":
             if i >= len(impl): return bad("trace ends early", i)
